@@ -17,7 +17,8 @@ struct Case {
     tips: Vec<u8>,
     hidden: Vec<u8>,
     mode: u8,
-    graph: bool,
+    /// 0 = no commit-graph, k = a commit-graph that covers only the first k commits (creation order) of the DAG; k = n is the complete one
+    graph: u8,
     git: bool,
 }
 
@@ -177,8 +178,9 @@ pub fn run(run: &'static Run) {
         "DAGs as in C46 (ordered parent lists <=3, 5 committer-date patterns incl. all-equal, equal pairs and skewed): quick n<=3 full + n=4 with ascending \
          parent lists and zigzag dates; thorough n<=4 full. tips: every single commit and every pair (half of the pairs also reversed); hidden: none or one \
          commit not among the tips (Topo modes only; Simple has no hidden commits); 9 modes: Simple breadth-first / newest-first / oldest-first / \
-         first-parent / newest-first with cut-off at the median date; Topo date-order / topo-order, each with all parents and first-parent. Each with and \
-         without the commit-graph. non-trivial = the expected walk shows >= 2 commits",
+         first-parent / newest-first with cut-off at the median date; Topo date-order / topo-order, each with all parents and first-parent. Each without commit-graph and with \
+         every commit-graph git writes for a prefix (in creation order, hence ancestor-closed) of k = 1..n commits of the DAG (k = n: complete graph; k < n: \
+         the newer commits and possibly some tips are outside the graph). non-trivial = the expected walk shows >= 2 commits",
     );
     run.assume("each-once and the reachable set are demanded in every mode. The exact sequence is demanded where the statement determines it: newest-first and Topo orders on DAGs with pairwise distinct dates (== reference model of git's rev-list, validated against git rev-list on DAGs n<=2 quick / n<=3 thorough), first-parent chains of a single tip. With equal dates gitoxide's binary heap and git's stable list may break ties differently, there the sequence must be *a* valid run (frontier-extreme date for date walks; children before parents, newest ready commit first for --date-order)");
     run.assume("first-parent Topo modes are run without hidden commits (git's --first-parent also restricts the walk from hidden commits)");
@@ -195,6 +197,7 @@ pub fn run(run: &'static Run) {
         None => dag::all_dags(&spec),
     };
     let repo = dag::build_repo("c47", &dags);
+    dag::write_prefix_graphs(&repo, dags.iter().map(Dag::n).max().unwrap_or(1));
     dag::write_commit_graph(&repo);
     let objects = repo.objects();
     run.cov("dags", dags.len());
@@ -204,6 +207,8 @@ pub fn run(run: &'static Run) {
     static EXACT: AtomicU64 = AtomicU64::new(0);
     static TIES: AtomicU64 = AtomicU64::new(0);
     static HIDDEN_CUTS: AtomicU64 = AtomicU64::new(0);
+    static PARTIAL: AtomicU64 = AtomicU64::new(0);
+    static STRADDLE: AtomicU64 = AtomicU64::new(0);
 
     let eval = move |c: &Case| -> Verdict {
         let d = &c.dag;
@@ -234,7 +239,14 @@ pub fn run(run: &'static Run) {
             }
         }
         let odb = dag::odb(objects);
-        let cg = c.graph.then(|| dag::load_commit_graph(objects));
+        let cg = (c.graph > 0).then(|| dag::load_prefix_graph(objects, c.graph as usize));
+        if c.graph > 0 && (c.graph as usize) < d.n() {
+            PARTIAL.fetch_add(1, Ordering::Relaxed);
+            let inside = |x: usize| x < c.graph as usize;
+            if tips.iter().any(|&t| inside(t)) && tips.iter().any(|&t| !inside(t)) {
+                STRADDLE.fetch_add(1, Ordering::Relaxed);
+            }
+        }
         let tip_ids: Vec<ObjectId> = tips.iter().map(|&t| ids[t]).collect();
         let collect = |it: &mut dyn Iterator<Item = Result<gix_traverse::commit::Info, String>>| -> Result<Vec<usize>, String> {
             let mut v = Vec::new();
@@ -344,8 +356,8 @@ pub fn run(run: &'static Run) {
                         hiddens.extend((0..n as u8).filter(|h| !tips.contains(h)).map(|h| vec![h]));
                     }
                     for hidden in hiddens {
-                        for graph in [false, true] {
-                            if git && graph {
+                        for graph in 0..=n as u8 {
+                            if git && graph > 0 {
                                 continue;
                             }
                             emit(Case { dag: d.clone(), tips: tips.clone(), hidden: hidden.clone(), mode, graph, git });
@@ -362,6 +374,9 @@ pub fn run(run: &'static Run) {
     run.cov("exact_sequence_comparisons", EXACT.load(Ordering::Relaxed));
     run.cov("tie_cases_checked_for_validity", TIES.load(Ordering::Relaxed));
     run.cov("walks_where_hidden_commit_removes_something", HIDDEN_CUTS.load(Ordering::Relaxed));
+    run.cov("walks_with_partial_commit_graph", PARTIAL.load(Ordering::Relaxed));
+    run.cov("walks_with_one_tip_inside_and_one_outside_the_commit_graph", STRADDLE.load(Ordering::Relaxed));
+    run.require("partial commit-graphs with tips on both sides were explored", STRADDLE.load(Ordering::Relaxed) > 0);
     run.require("exact sequences were compared", EXACT.load(Ordering::Relaxed) > 0);
     run.require("hidden commits cut something off", HIDDEN_CUTS.load(Ordering::Relaxed) > 0);
     run.require("git was consulted", GIT_CALLS.load(Ordering::Relaxed) > 0);
